@@ -69,6 +69,8 @@ pub struct Stats {
     pub total_steps: u64,
     pub horizon_hits: u64,
     pub deadlocks: u64,
+    /// executions that hit the per-execution wall timeout once and completed when run again
+    pub retried_timeouts: u64,
     pub outcomes: BTreeMap<String, u64>,
     pub violations: Vec<Violation>,
     pub samples: Vec<Value>,
@@ -161,9 +163,22 @@ pub fn explore(
                     };
                     let mut case = scenario.clone();
                     case["prefix"] = json!(item.prefix.iter().map(|(i, n)| json!([i, n])).collect::<Vec<_>>());
-                    let out = w.call(&case);
+                    let mut out = w.call(&case);
+                    // a wall-clock timeout of one execution can be the machine and not the subject
+                    // (seen once with four heavy jobs on the same host; the prefix then replayed in
+                    // under a second): an execution is determined by its prefix, so it is run once
+                    // more on a fresh worker before the timeout counts as a machinery error
+                    let mut retried = false;
+                    if matches!(out, Ok(Outcome::Timeout)) {
+                        retried = true;
+                        eprintln!("[x3] execution timed out, running it once more (prefix {:?})", item.prefix);
+                        out = w.call(&case);
+                    }
                     let mut sh = shared.lock().unwrap();
                     sh.in_flight -= 1;
+                    if retried {
+                        sh.stats.retried_timeouts += 1;
+                    }
                     match out {
                         Err(e) => {
                             sh.error = Some(e);
